@@ -32,3 +32,17 @@ package http
 //@ site call Process assert data == msg.Data && body == msg.Body
 //@ site loop 1 backedge assert itercalls("Process") == 1 && itercalls("done") == 1
 //@ site return assert !ok
+
+// Every worker gets a client whose requests are bounded by the configured timeout (C19: a receiver that accepts
+// a request and never answers is a failed, retried hand-off, not a worker wedged for ever), and all workers
+// share the plugin's queue.
+//@ func New
+//@ props C19 C08
+//@ abstract-calls external
+//@ requires config != nil && config.Workers >= 0 && config.Workers <= 1000000 && config.Size >= 0 && config.Size <= 1000000
+//@ loop-complete 1
+//@ site loop 1 backedge assert workers[i-1] != nil && workers[i-1].client != nil
+//@ site loop 1 backedge assert workers[i-1].client.Timeout == config.Timeout
+//@ site loop 1 backedge assert workers[i-1].client.Transport == nil
+//@ site loop 1 backedge assert workers[i-1].sq == sq
+//@ site loop 1 backedge assert workers[i-1].aio == a
